@@ -148,7 +148,9 @@ def install() -> None:
         if TRACE["on"]:
             head = self.path[0]
             root = head.evaluate(context) if isinstance(head, Path) and False else head
-            TRACE["lookups"].append((getattr(context.template, "name", "?"), self.location(), self.token.start_index, answered_by(context, root) if not isinstance(root, Path) else "nested-root"))
+            # the template the reference is *written* in: a macro defined in an included partial runs under its caller's template
+            tname = TRACE.get("by_source", {}).get(getattr(self.token, "source", None)) or getattr(context.template, "name", "?")
+            TRACE["lookups"].append((tname, self.location(), self.token.start_index, answered_by(context, root) if not isinstance(root, Path) else "nested-root"))
 
     def evaluate(self, context):
         record(self, context)
@@ -314,6 +316,10 @@ def judge(ctx: core.Ctx, case: dict[str, Any]) -> None:
     lexically_bound = block_bound_names(sources) if has_macro else set()
     n_partial_calls = sum(len(re.findall(r"\b(?:include|render)\s+['\"]", s)) for s in sources.values())
     globals_hit = 0
+    by_source: dict[str, Any] = {}
+    for tn, src in sources.items():
+        by_source[src] = tn if src not in by_source else None  # identical texts: fall back to the rendering template's name
+    TRACE["by_source"] = by_source
     for data_enc in case["datas"]:
         data = V.dec(data_enc)
         out, tr = traced_render(t, data, case.get("async", False))
